@@ -72,6 +72,7 @@ import (
 	"time"
 
 	"github.com/caddyserver/caddy/v2"
+	"github.com/caddyserver/caddy/v2/caddyconfig/caddyfile"
 	"github.com/caddyserver/caddy/v2/modules/caddyhttp"
 	"github.com/caddyserver/caddy/v2/modules/caddyhttp/reverseproxy"
 
@@ -185,6 +186,7 @@ type step struct {
 	r    int
 	q    int
 	s    int
+	x    int // max_requests of the first upstream (0 = not set)
 	get  bool
 	rid  int
 	out  string
@@ -222,7 +224,25 @@ func parseKeys(s string, K int) ([]int, bool) {
 	return out, len(out) <= 8
 }
 
-var outcomes = map[string]bool{"ok": true, "e5": true, "rst": true, "hup": true, "pan": true, "her": true}
+var outcomes = map[string]bool{"ok": true, "e5": true, "c404": true, "c429": true, "c502": true, "c503": true,
+	"rst": true, "hup": true, "pan": true, "her": true}
+
+// answerStatus: the status code of a complete answer (0 = the answer token is something else).
+func answerStatus(out string) int {
+	switch out {
+	case "ok", "hup", "pan", "her": // hup/pan/her: a 200 whose body breaks off / whose response handler panics / fails
+		return 200
+	case "e5":
+		return 500
+	case "c404", "c429", "c502", "c503":
+		n, _ := strconv.Atoi(out[1:])
+		return n
+	}
+	return 0
+}
+
+// statusTable: the unhealthy_status lists a load step can choose from (same table in Driver.lean).
+var statusTable = [][]int{nil, {500}, {500, 5}, {5}, {502, 404}, {4, 429, 503}, {50}, {200, 2}}
 
 func parseStep(s string, K int) (st step, ok bool) {
 	f := strings.Split(s, ":")
@@ -232,8 +252,15 @@ func parseStep(s string, K int) (st step, ok bool) {
 	st.op = f[0][0]
 	switch st.op {
 	case 'L':
-		if len(f) != 8 {
+		if len(f) != 8 && len(f) != 9 {
 			return st, false
+		}
+		if len(f) == 9 {
+			var okx bool
+			st.x, okx = num(f[8])
+			if !okx || st.x < 1 || st.x > 100 {
+				return st, false
+			}
 		}
 		var o [7]bool
 		st.keys, o[0] = parseKeys(f[1], K)
@@ -250,7 +277,7 @@ func parseStep(s string, K int) (st step, ok bool) {
 				return st, false
 			}
 		}
-		return st, pv <= 1 && st.r <= 8 && st.s <= 2 && st.m <= 100 && st.q <= 100
+		return st, pv <= 1 && st.r <= 8 && st.s <= 7 && st.m <= 100 && st.q <= 100
 	case 'B':
 		if len(f) != 2 {
 			return st, false
@@ -429,6 +456,7 @@ type kase struct {
 	done           []step // steps executed so far
 	lastCounted    int    // failures counted during the last step
 	forgetTimedOut bool   // a due forgetter did not run within the settle wait
+	cf             bool   // configurations are delivered as Caddyfile where possible
 	raced          bool   // see the O/A step: a retry that only scheduler noise makes possible
 	infra          string
 }
@@ -513,8 +541,8 @@ func (b *backend) ServeHTTP(w http.ResponseWriter, r *http.Request) {
 	switch c {
 	case "ok":
 		w.Write([]byte("ok"))
-	case "e5":
-		w.WriteHeader(500)
+	case "e5", "c404", "c429", "c502", "c503":
+		w.WriteHeader(answerStatus(c))
 		w.Write([]byte("no"))
 	case "pan":
 		w.Header().Set("X-Verif", "panic")
@@ -540,8 +568,12 @@ func (b *backend) ServeHTTP(w http.ResponseWriter, r *http.Request) {
 
 func (k *kase) handlerJSON(st step, bad bool) []byte {
 	ups := []any{}
-	for _, key := range st.keys {
-		ups = append(ups, map[string]any{"dial": k.dial(key)})
+	for i, key := range st.keys {
+		u := map[string]any{"dial": k.dial(key)}
+		if i == 0 && st.x > 0 {
+			u["max_requests"] = st.x
+		}
+		ups = append(ups, u)
 	}
 	lb := map[string]any{"selection_policy": map[string]any{"policy": "first"}}
 	if st.r > 0 {
@@ -572,19 +604,83 @@ func (k *kase) handlerJSON(st step, bad bool) []byte {
 		if st.q > 0 {
 			pa["unhealthy_request_count"] = st.q
 		}
-		switch st.s {
-		case 1:
-			pa["unhealthy_status"] = []int{500}
-		case 2:
-			pa["unhealthy_status"] = []int{500, 5}
+		if st.s > 0 {
+			pa["unhealthy_status"] = statusTable[st.s]
 		}
 		m["health_checks"] = map[string]any{"passive": pa}
+	}
+	if k.cf {
+		// the same configuration written as a Caddyfile `reverse_proxy` block and parsed by the
+		// real Handler.UnmarshalCaddyfile: option names, `5xx` classes, durations and defaults
+		// travel through the adapter code instead of being set in JSON directly
+		if cm, ok := k.viaCaddyfile(st); ok {
+			cm["handle_response"] = m["handle_response"]
+			m = cm
+			k.tag("config-via-caddyfile")
+		}
 	}
 	if bad {
 		m["trusted_proxies"] = []string{"not-an-address"}
 	}
 	b, _ := json.Marshal(m)
 	return b
+}
+
+// viaCaddyfile renders the load step as Caddyfile, runs the real parser and returns the handler
+// as a JSON object; ok=false if the step cannot be written as Caddyfile (an upstream's own
+// max_requests; passive checks present but with no option set).
+func (k *kase) viaCaddyfile(st step) (map[string]any, bool) {
+	if st.x > 0 || (st.p && st.d == 0 && st.m == 0 && st.q == 0 && st.s == 0) {
+		return nil, false
+	}
+	var b strings.Builder
+	b.WriteString("reverse_proxy {\n")
+	for _, key := range st.keys {
+		fmt.Fprintf(&b, "\tto %s\n", k.dial(key))
+	}
+	b.WriteString("\tlb_policy first\n")
+	if st.r > 0 {
+		fmt.Fprintf(&b, "\tlb_retries %d\n\tlb_try_interval 4ms\n", st.r)
+	}
+	if st.p {
+		if st.d > 0 {
+			fmt.Fprintf(&b, "\tfail_duration %s\n", k.realD(st.d).String())
+		}
+		if st.m > 0 {
+			fmt.Fprintf(&b, "\tmax_fails %d\n", st.m)
+		}
+		if st.q > 0 {
+			fmt.Fprintf(&b, "\tunhealthy_request_count %d\n", st.q)
+		}
+		if st.s > 0 {
+			b.WriteString("\tunhealthy_status")
+			for _, c := range statusTable[st.s] {
+				if c < 10 {
+					fmt.Fprintf(&b, " %dxx", c)
+				} else {
+					fmt.Fprintf(&b, " %d", c)
+				}
+			}
+			b.WriteString("\n")
+		}
+	}
+	b.WriteString("\ttransport http {\n\t\tkeepalive off\n\t}\n}\n")
+	h := new(reverseproxy.Handler)
+	if err := h.UnmarshalCaddyfile(caddyfile.NewTestDispenser(b.String())); err != nil {
+		k.infra = "caddyfile: " + err.Error()
+		return nil, false
+	}
+	raw, err := json.Marshal(h)
+	if err != nil {
+		k.infra = "caddyfile: " + err.Error()
+		return nil, false
+	}
+	var m map[string]any
+	if err := json.Unmarshal(raw, &m); err != nil {
+		k.infra = "caddyfile: " + err.Error()
+		return nil, false
+	}
+	return m, true
 }
 
 // realD maps a window of d ticks to wall time: half a tick short, so that a snapshot taken in
@@ -808,13 +904,18 @@ func (k *kase) snapshot(ev string) string {
 		}
 	}
 	b.WriteString("][")
+	admin := k.adminView()
 	for key := 0; key < k.K; key++ {
 		if key > 0 {
 			b.WriteByte(',')
 		}
 		h, refs, ok := reverseproxy.VerifHostsEntry(k.dial(key))
+		av, aok := admin[k.dial(key)]
 		if !ok {
 			b.WriteByte('-')
+			if aok {
+				b.WriteString("!listed")
+			}
 			continue
 		}
 		k.mu.Lock()
@@ -825,9 +926,62 @@ func (k *kase) snapshot(ev string) string {
 		} else {
 			fmt.Fprintf(&b, "?x%d", refs)
 		}
+		// what GET /reverse_proxy/upstreams (the admin endpoint) reports for this address
+		if aok {
+			fmt.Fprintf(&b, ":%d/%d", av[0], av[1])
+			if av[0] != h.NumRequests() || av[1] != h.Fails() {
+				k.fail("admin-endpoint-misreports", fmt.Sprintf("GET /reverse_proxy/upstreams reports num_requests=%d fails=%d for key %d, the pooled Host has %d/%d", av[0], av[1], key, h.NumRequests(), h.Fails()))
+			}
+		} else {
+			b.WriteString(":unlisted")
+		}
 	}
 	b.WriteByte(']')
 	return b.String()
+}
+
+var (
+	adminOnce    sync.Once
+	adminHandler caddy.AdminHandler
+)
+
+// adminView calls the real admin API handler of the reverse proxy (module admin.api.reverse_proxy,
+// route /reverse_proxy/upstreams) and returns address -> (num_requests, fails).
+func (k *kase) adminView() map[string][2]int {
+	adminOnce.Do(func() {
+		if mi, err := caddy.GetModule("admin.api.reverse_proxy"); err == nil {
+			if ar, ok := mi.New().(caddy.AdminRouter); ok {
+				for _, rt := range ar.Routes() {
+					if rt.Pattern == "/reverse_proxy/upstreams" {
+						adminHandler = rt.Handler
+					}
+				}
+			}
+		}
+	})
+	out := map[string][2]int{}
+	if adminHandler == nil {
+		k.infra = "admin.api.reverse_proxy route /reverse_proxy/upstreams not found"
+		return out
+	}
+	rec := httptest.NewRecorder()
+	if err := adminHandler.ServeHTTP(rec, httptest.NewRequest("GET", "/reverse_proxy/upstreams", nil)); err != nil {
+		k.fail("admin-endpoint-error", "GET /reverse_proxy/upstreams failed: "+err.Error())
+		return out
+	}
+	var list []struct {
+		Address     string `json:"address"`
+		NumRequests int    `json:"num_requests"`
+		Fails       int    `json:"fails"`
+	}
+	if err := json.Unmarshal(rec.Body.Bytes(), &list); err != nil {
+		k.fail("admin-endpoint-error", "GET /reverse_proxy/upstreams: "+err.Error())
+		return out
+	}
+	for _, e := range list {
+		out[e.Address] = [2]int{e.NumRequests, e.Fails}
+	}
+	return out
 }
 
 func (k *kase) fail(class, what string) {
@@ -842,8 +996,8 @@ func (k *kase) fail(class, what string) {
 func (k *kase) tag(t string) { k.tags[t] = true }
 
 // runSched executes the schedule; ok=false means the line is (semantically) malformed.
-func (p *prop) runSched(K int, src stepSource, U time.Duration) (impl string, k *kase, ok bool) {
-	k = &kase{p: p, K: K, U: U, ev: make(chan reqEvent, 64),
+func (p *prop) runSched(K int, src stepSource, U time.Duration, cf bool) (impl string, k *kase, ok bool) {
+	k = &kase{p: p, K: K, U: U, cf: cf, ev: make(chan reqEvent, 64),
 		objIdx: map[*reverseproxy.Host]int{}, tags: map[string]bool{}}
 	k.cond = sync.NewCond(&k.mu)
 	k.dir = filepath.Join(p.root, fmt.Sprintf("k%d", p.nextDir.Add(1)))
@@ -1059,7 +1213,7 @@ func (p *prop) run(line string) core.Outcome {
 		return core.Outcome{Impl: "bad-op", Tags: []string{"bad-op", "trivial"}}
 	}
 	switch f[0] {
-	case "sched":
+	case "sched", "schedcf":
 		K, steps, ok := parseSched(f)
 		if !ok {
 			return core.Outcome{Impl: "bad-op", Tags: []string{"bad-op", "trivial"}}
@@ -1067,7 +1221,7 @@ func (p *prop) run(line string) core.Outcome {
 		if err := p.init(); err != nil {
 			return core.Outcome{Impl: "infra", Tags: []string{"infra"}, Failures: []core.Failure{{Case: line, Class: "harness-infra", What: err.Error()}}}
 		}
-		o, _ := p.execSched(K, &replaySource{steps: steps}, 0)
+		o, _ := p.execSched(K, &replaySource{steps: steps}, 0, f[0] == "schedcf")
 		for i := range o.Failures {
 			o.Failures[i].Case = line
 		}
@@ -1085,10 +1239,10 @@ const baseTick = 40 * time.Millisecond
 // execSched runs a schedule, re-running it (as a replay of the steps already chosen) with a
 // longer tick when the machine was too slow for the discrete clock to be trustworthy.
 // It returns the outcome and the steps that were executed.
-func (p *prop) execSched(K int, src stepSource, minAttempt int) (core.Outcome, []step) {
+func (p *prop) execSched(K int, src stepSource, minAttempt int, cf bool) (core.Outcome, []step) {
 	U := baseTick << minAttempt
 	for attempt := minAttempt; ; attempt++ {
-		impl, k, ok := p.runSched(K, src, U)
+		impl, k, ok := p.runSched(K, src, U, cf)
 		p.stats.Lock()
 		p.stats.cases++
 		p.stats.Unlock()
@@ -1127,7 +1281,10 @@ func (p *prop) execSched(K int, src stepSource, minAttempt int) (core.Outcome, [
 	}
 }
 
-func schedLine(K int, steps []step) string {
+func schedLine(K int, steps []step, cf bool) string {
+	if cf {
+		return "schedcf" + schedLine(K, steps, false)[len("sched"):]
+	}
 	parts := make([]string, len(steps))
 	for i, st := range steps {
 		parts[i] = st.text
